@@ -2,7 +2,7 @@ SPECIFICATION Spec
 CONSTANTS
   MaxLen = 5
   MaxEpoch = 1
-  Classes = {"honest", "bitflip", "thirdkey", "otherctx", "otherpeer"}
+  Classes = {"honest", "bitflip", "thirdkey", "attachedkey", "alteredprev", "otherctx", "otherpeer"}
   SendSide = FALSE
 CONSTRAINT Emit
 CHECK_DEADLOCK FALSE
